@@ -236,6 +236,10 @@ structure OracleBlock where
 def bumpMiss (miss : List (String × Nat)) (i : Nat) : List (String × Nat) :=
   alSet miss (valName i) ((alGet miss (valName i)).getD 0 + 1)
 
+/-- the owners the tally of the current ballots accepts -/
+def tallyAccepted (s : State) : List (Nft × Str) :=
+  acceptedOwners (claims s) (ballots s.os.votes) (thresholdVotes s.os.params.threshold (totalPower (claims s)))
+
 /-- oracle `EndBlocker` at height `s.h` -/
 def oracleEndBlock (s : State) : OracleBlock :=
   let ri := nextRoundInfo s
@@ -243,10 +247,9 @@ def oracleEndBlock (s : State) : OracleBlock :=
   let p := s.os.params.votePeriod
   if (s.h : Int) != voteEnd s.h p then ⟨s1, [], []⟩
   else
-    let cl := claims s1
-    let thr := thresholdVotes s.os.params.threshold (totalPower cl)
-    let bs := ballots s1.os.votes
-    let accepted := acceptedOwners cl bs thr
+    let cl := claims s
+    let bs := ballots s.os.votes
+    let accepted := tallyAccepted s
     -- fill settlement recipients
     let start := roundStart s.h p
     let evs := if start = 0 then [] else s1.st.recTenants.flatMap (fun t => fillEvents accepted (start - 1) s.h t (s1.st.recs t))
